@@ -286,6 +286,34 @@ Lemma reorder_funcs_prepare te funcs :
   if length result =? n then Ok result else Err EB_INTERNAL.
 Proof. reflexivity. Qed.
 
+(* ---------- the node table of the start state has one entry per graph node, more than providers ---------- *)
+Lemma fold_len {A} (f : list rnode -> A -> list rnode) :
+  (forall a ns, length (f ns a) = length ns) -> forall l ns, length (fold_left f l ns) = length ns.
+Proof.
+  intros Hf. induction l as [|a r IH]; intros ns; cbn [fold_left]; [reflexivity|]. rewrite IH. apply Hf.
+Qed.
+
+Lemma prepare_nodes te funcs :
+  length (t_nodes (snd (reorder_prepare te funcs))) = rs_counter (fst (reorder_prepare te funcs)) /\
+  S (length funcs) <= rs_counter (fst (reorder_prepare te funcs)).
+Proof.
+  unfold reorder_prepare. cbv zeta. cbn [fst snd].
+  match goal with |- context [init_push te funcs ?dt ?x0] =>
+    destruct (init_push_facts te funcs dt x0) as (Hn & _) end.
+  cbv zeta in Hn. rewrite Hn. cbn [t_nodes].
+  split.
+  - rewrite fold_len.
+    + rewrite fold_len.
+      * rewrite fold_len; [apply repeat_length|].
+        intros a ns. rewrite !upd_node_length. reflexivity.
+      * intros a ns. rewrite !upd_node_length. reflexivity.
+    + intros a ns. destruct (negb _); [reflexivity|]. rewrite !upd_node_length. reflexivity.
+  - match goal with |- context [edges_for te funcs ?aD ?aU ?pbnr ?rnr ?ls] =>
+      pose proof (edges_fold_ginv te funcs aD aU pbnr rnr ls (length funcs) (seq_from 0 (length funcs)) []
+                    (mkRs [] [] [] [] (S (length funcs)) [] None) (ginv_init (length funcs) funcs)) as G end.
+    destruct G as [[G1 _] _ _ _]. exact G1.
+Qed.
+
 (* whenever the computable bound holds, the sort inside reorder_funcs ends with empty queues and any
    larger amount of fuel gives the same run: the model's Reorder is the unfuelled algorithm *)
 Theorem reorder_fuel_sufficient te funcs : reorder_fuel_ok te funcs = true -> existsb is_reorder funcs = true ->
@@ -295,8 +323,8 @@ Theorem reorder_fuel_sufficient te funcs : reorder_fuel_ok te funcs = true -> ex
                 = topo_run te funcs (rs_down st) (rs_up st) (reorder_fuel st) x1.
 Proof.
   unfold reorder_fuel_ok. intros H Hr. rewrite Hr in H. cbn [negb orb] in H.
-  destruct (reorder_prepare te funcs) as [st x1].
-  apply andb_true_iff in H. destruct H as [H1 H2].
-  apply Nat.ltb_lt in H1. apply Nat.leb_le in H2.
-  apply topo_run_fuel; assumption.
+  destruct (prepare_nodes te funcs) as [Hl Hc].
+  destruct (reorder_prepare te funcs) as [st x1]. cbn [fst snd] in Hl, Hc.
+  apply Nat.leb_le in H. apply topo_run_fuel; [lia|exact H].
 Qed.
+
